@@ -128,7 +128,7 @@ func pmMakeState(sel [nPReg]int) pState {
 
 func pmInits(tier string, mode string) []pState {
 	var out []pState
-	if tier == "thorough" && mode == "full1" {
+	if mode == "full1" {
 		for a := 0; a < 5; a++ {
 			for b := 0; b < 5; b++ {
 				for c := 0; c < 5; c++ {
@@ -139,8 +139,11 @@ func pmInits(tier string, mode string) []pState {
 		return out
 	}
 	sel := [][nPReg]int{{0, 0, 0}, {1, 2, 0}, {2, 3, 4}, {4, 1, 3}, {3, 0, 2}, {0, 4, 1}, {2, 2, 2}, {4, 4, 0}, {3, 3, 1}, {1, 1, 1}}
-	if tier != "thorough" && mode != "full1" {
+	if tier != "thorough" {
 		sel = sel[:6]
+		if mode == "full" {
+			sel = [][nPReg]int{{2, 3, 4}, {0, 1, 2}}
+		}
 	}
 	for _, s := range sel {
 		out = append(out, pmMakeState(s))
@@ -153,7 +156,13 @@ func pmInits(tier string, mode string) []pState {
 func pmOps(np int, fam map[string]bool, tier string) []string {
 	var ops []string
 	ns := len(pmScalarVals)
-	add := func(format string, a ...any) { ops = append(ops, fmt.Sprintf(format, a...)) }
+	small := fam["small-alphabets"]
+	if small {
+		ns = 5 // 0, 1, 8, l-1, generic
+	}
+	add := func(format string, a ...any) {
+		ops = append(ops, fmt.Sprintf(format, a...))
+	}
 	for r := 0; r < np; r++ {
 		if fam["set"] {
 			for a := 0; a < np; a++ {
@@ -162,15 +171,24 @@ func pmOps(np int, fam map[string]bool, tier string) []string {
 				}
 			}
 			for k := range pmStringAlphabet {
+				if small && !(k < 4 || k == 8 || k == 10 || k == 13 || k == 14 || k == 18) {
+					continue // valid, non-canonical, off-curve and wrong-length representatives
+				}
 				add("SetBytes %d %d", r, k)
 			}
 			for a := 0; a < np; a++ {
 				for lam := 0; lam < 5; lam++ {
+					if small && lam != 1 && lam != 4 {
+						continue
+					}
 					add("SetExt %d %d %d", r, a, lam)
 				}
 				add("SetExtZ0 %d %d", r, a) // (X,Y,0,T) of register a
 			}
 			for k := 0; k < 6; k++ {
+				if small && k != 0 && k != 3 {
+					continue
+				}
 				add("SetExtBad %d %d", r, k)
 			}
 		}
@@ -202,6 +220,9 @@ func pmOps(np int, fam map[string]bool, tier string) []string {
 			add("VTMSM %d 0", r)
 			// two terms: scalar pairs x point pairs
 			sp := [][2]int{{1, 1}, {3, 4}, {5, 2}, {0, 4}, {4, 6}}
+			if small {
+				sp = [][2]int{{3, 4}, {0, 2}}
+			}
 			for _, pr := range sp {
 				for a := 0; a < np; a++ {
 					for b := 0; b < np; b++ {
@@ -442,12 +463,13 @@ func newPointMachine(name, mode string, np int, fam map[string]bool) *core.Machi
 }
 
 var famAll = map[string]bool{"set": true, "arith": true, "mult": true}
+var famAllSmall = map[string]bool{"set": true, "arith": true, "mult": true, "small-alphabets": true}
 var famMult = map[string]bool{"mult": true}
 
 var (
 	c12Full1   = newPointMachine("C12/opseq-full-depth1", "full1", 3, famAll)
 	c12Full    = newPointMachine("C12/opseq-full", "full", 3, famAll)
-	c12Reduced = newPointMachine("C12/opseq-reduced", "reduced", 2, famAll)
+	c12Reduced = newPointMachine("C12/opseq-reduced", "reduced", 2, famAllSmall)
 	c01Full1   = newPointMachine("C01/opseq-mult-depth1", "full1", 3, famMult)
 	c01Full    = newPointMachine("C01/opseq-mult", "full", 3, famMult)
 )
@@ -460,9 +482,10 @@ func runC12(ctx *core.Ctx) {
 	if ctx.Quick() {
 		c12Full1.BFS(ctx, 1, 2_000_000)
 		c12Reduced.BFS(ctx, 2, 2_000_000)
+		c12Full.BFS(ctx, 2, 2_000_000)
 	} else {
 		c12Full1.BFS(ctx, 1, 4_000_000)
 		c12Full.BFS(ctx, 2, 6_000_000)
-		c12Reduced.BFS(ctx, 3, 6_000_000)
+		c12Reduced.BFS(ctx, 3, 12_000_000)
 	}
 }
